@@ -173,8 +173,7 @@ def handle : Handler := fun op inp impl =>
   | "wire" =>
     let ct := str (field inp "ct")
     let fb := strList (field impl "fb")
-    let grpc := ct == "application/grpc" || ct.startsWith "application/grpc+"
-    let want := !grpc && nat (field inp "trailers") > 0
+    let want := httpTrailersFeedback ct (nat (field inp "trailers"))
     let got := fb.contains "wire:http-trailers"
     { agree := got == want && !fb.any (·.startsWith "other:"), holds := got == want, nontrivial := want,
       model := toJson want,
